@@ -30,10 +30,9 @@ extern "C" int LLVMFuzzerTestOneInput(const uint8_t *data, size_t size) {
             std::vector<const gr_slot *> order = walk_struct(s, n, 0, f, fo, sr);
             if (!sr.c02.empty()) { fprintf(stderr, "FUZZ-ORACLE growth: %s\n", sr.c02[0].c_str()); abort(); }
             std::string d = dump_seg(s, f, fo);
-            if (t == 0 && order.size() >= 2) {
-                gr_slot_linebreak_before(const_cast<gr_slot *>(order[order.size() / 2]));
-                gr_seg_justify(s, order[0], fo, 300, gr_justCompleteLine, nullptr, nullptr);
-            }
+            // (no gr_seg_justify here: justification arithmetic on arbitrary attribute values is C19's subject and has an open known
+            // finding, KF-C19-3; this target serves C01 / C02 / C14)
+            if (t == 0 && order.size() >= 2) gr_slot_linebreak_before(const_cast<gr_slot *>(order[order.size() / 2]));
             gr_seg_destroy(s);
         }
     std::string rep = face_report(f);
